@@ -17,13 +17,14 @@ pub fn n_units(tier: Tier) -> u64 {
     }
 }
 /// The two access paths of the known 'static-escape finding are exercised by fixed histories in
-/// every run (unit 0, subs 0 and 1), so that the KNOWN-FINDING lines do not depend on the seed.
+/// every run (unit 0, subs 0, 1 and 2), so that the KNOWN-FINDING lines do not depend on the seed.
 fn canonical(sub: u64) -> Option<Case> {
     use super::world::Op;
     use crate::docs::Loader;
     let doc = match sub {
         0 => "VecU64",
         1 => "BoxU32",
+        2 => "DeepA",
         _ => return None,
     };
     Some(Case {
